@@ -328,7 +328,7 @@ func c03Sig(kind string, routes []c03Route, m string, gd bool, rh string, got in
 // LookupHost (TCP / SNI listeners) and the gRPC synthetic request follow the same rule.
 func TestVerifC03LookupHost(t *testing.T) {
 	L := ev.Begin("C03", "c03-lookuphost", "exploration",
-		"LookupHost(host) for TCP/SNI: all tables of <=3 host routes; all hosts incl. upper case; expected = exact host-name route (case-insensitive) or none. non-trivial = table has >=2 routes")
+		"LookupHost(host) for TCP/SNI: all tables of <=3 host routes (every other host also has an HTTP route under /api/v2); all hosts incl. upper case; expected = exact host-name route (case-insensitive) or none. non-trivial = table has >=2 routes")
 	hosts := []string{"foo.com", "a.foo.com", "bar.org", ":1234", "*.foo.com"}
 	reqs := []string{"foo.com", "FOO.com", "a.foo.com", "A.Foo.Com", "bar.org", "x.org", ":1234", ""}
 	subsets := vfSubsets(len(hosts), 3)
@@ -341,6 +341,10 @@ func TestVerifC03LookupHost(t *testing.T) {
 				src = h
 			}
 			fmt.Fprintf(&sb, "route add s%d %s tcp://10.0.0.%d:80 opts \"proto=tcp\"\n", j, src, j+1)
+			if !strings.HasPrefix(h, ":") && j%2 == 0 {
+				// the same host also serves an HTTP API under a path: a TCP / SNI connection has no path, it is routed by the "/" route
+				fmt.Fprintf(&sb, "route add api%d %s/api/v2 http://10.0.9.%d:8080/\n", j, h, j+1)
+			}
 		}
 		tbl, err := vfTable(sb.String())
 		if err != nil {
@@ -382,7 +386,7 @@ func TestVerifC03LookupHost(t *testing.T) {
 // special shapes the small alphabets of c03-select cannot hold: IPv6 literal hosts and long pattern lists
 func TestVerifC03Special(t *testing.T) {
 	L := ev.Begin("C03", "c03-special", "exploration",
-		"(a) IPv6 literal route hosts ([::1], [::1]:8080, [2001:db8::1]; glob matching disabled, since brackets are a glob class) x request hosts with no port, the scheme's default port, the other scheme's default port and another port, plain and TLS; expected = the route whose host equals the request host once the default port is removed. (b) 15 wildcard host patterns of growing suffix length that all match one request host (the longest is the host itself behind a wildcard that stands for nothing) (more than a small-slice sort handles specially), in 3 insertion orders, with and without the exact host: expected = the exact host if present, else the longest suffix. non-trivial = every lookup")
+		"(a) IPv6 literal route hosts ([::1], [::1]:8080, [2001:db8::1]; glob matching disabled, since brackets are a glob class) x request hosts with no port, the scheme's default port, the other scheme's default port and another port, plain and TLS; expected = the route whose host equals the request host once the default port is removed. (b) 15 wildcard host patterns of growing suffix length that all match one request host (the longest is the host itself behind a wildcard that stands for nothing) (more than a small-slice sort handles specially), in 3 insertion orders, with and without the exact host: expected = the exact host if present, else the longest suffix. (c) three routes of one host handed over as route definitions (custom backend) in all six orders: the longest matching path wins. non-trivial = every lookup")
 	gc := NewGlobCache(100)
 	// (a)
 	v6 := []string{"[::1]", "[::1]:8080", "[2001:db8::1]"}
@@ -477,6 +481,34 @@ func TestVerifC03Special(t *testing.T) {
 					if pan || got != want {
 						L.Violation("not-most-specific/many-matching-patterns", map[string]interface{}{"patterns": len(pats), "insertion_order": oi, "exact_host_present_for_/only": withExact, "host": rq[0], "path": rq[1], "got": got, "want": want, "panic": msg})
 					}
+				}
+			}
+		}
+	}
+	// (c) the same routes handed over as a list of definitions (custom backend), in every order
+	{
+		paths := []string{"/", "/api", "/api/v2"}
+		perms := [][]int{{0, 1, 2}, {0, 2, 1}, {1, 0, 2}, {1, 2, 0}, {2, 0, 1}, {2, 1, 0}}
+		for _, pm := range perms {
+			var defs []RouteDef
+			for _, k := range pm {
+				defs = append(defs, RouteDef{Cmd: RouteAddCmd, Service: fmt.Sprintf("s%d", k), Src: "www.example.com" + paths[k], Dst: fmt.Sprintf("http://10.0.0.%d:80/", k+1)})
+			}
+			tbl, err := NewTableCustom(&defs)
+			if err != nil {
+				panic("VERIF-INFRA: " + err.Error())
+			}
+			for rp, want := range map[string]string{"/": "s0", "/x": "s0", "/api": "s1", "/api/x": "s1", "/api/v2/y": "s2", "/apix": "s1"} {
+				L.Case()
+				L.NontrivialKey(fmt.Sprint("custom", pm, rp))
+				tg := tbl.Lookup(vfReq("www.example.com", rp, false), "", rrPicker, prefixMatcher, gc, false)
+				got := "<none>"
+				if tg != nil {
+					got = tg.Service
+				}
+				L.Outcome(got)
+				if got != want {
+					L.Violation("not-most-specific/custom-backend-definition-order", map[string]interface{}{"definition_order": pm, "path": rp, "got": got, "want": want})
 				}
 			}
 		}
